@@ -442,7 +442,7 @@ type replayCase struct {
 
 func modelInput(g *dag.Graph, ops []op, seed uint64) string {
 	var sb strings.Builder
-	fmt.Fprintf(&sb, "s%d n%d", seed, len(g.Nodes))
+	fmt.Fprintf(&sb, "s%d k%d n%d", seed, b2i(keepLiveDigests), len(g.Nodes))
 	for _, n := range g.Nodes {
 		k := map[string]string{dag.KImage: "1", dag.KDocker: "2", dag.KIndex: "3", dag.KDockerL: "4", dag.KArtifact: "5"}[n.Kind]
 		if k == "" {
@@ -617,7 +617,7 @@ func runCase(g *dag.Graph, ops []op, seed uint64) {
 				}
 			}
 			for k := range expDig {
-				if !tr.tagged(k) && !kept[k] {
+				if !tr.tagged(k) && !kept[k] && !(keepLiveDigests && live[k]) {
 					delete(expDig, k)
 				}
 			}
@@ -755,6 +755,55 @@ func runCase(g *dag.Graph, ops []op, seed uint64) {
 
 var repeats = 1
 
+// keepLiveDigests: does GC keep the digest-only reference of a descriptor that stays in the
+// rebuilt graph without being tagged or a kept referrer?  Both behaviours satisfy the
+// property (C09 does not speak about digest-only references); which one the store has is
+// probed once and passed to the model and to the reference.
+var keepLiveDigests bool
+
+func probeKeepLiveDigests() bool {
+	root, err := os.MkdirTemp("", "c09p-")
+	if err != nil {
+		panic(err)
+	}
+	defer os.RemoveAll(root)
+	store, err := oci.New(root)
+	if err != nil {
+		panic(err)
+	}
+	ctx := context.Background()
+	push := func(mt string, body []byte) ocispec.Descriptor {
+		d := ocispec.Descriptor{MediaType: mt, Digest: digest.FromBytes(body), Size: int64(len(body))}
+		if err := store.Push(ctx, d, bytes.NewReader(body)); err != nil {
+			panic(err)
+		}
+		return d
+	}
+	cfg := push(ocispec.MediaTypeImageConfig, []byte("{}"))
+	var m ocispec.Manifest
+	m.SchemaVersion = 2
+	m.MediaType = ocispec.MediaTypeImageManifest
+	m.Config = cfg
+	m.Layers = []ocispec.Descriptor{}
+	mb, _ := json.Marshal(m)
+	md := push(ocispec.MediaTypeImageManifest, mb)
+	var ix ocispec.Index
+	ix.SchemaVersion = 2
+	ix.MediaType = ocispec.MediaTypeImageIndex
+	ix.Manifests = []ocispec.Descriptor{md}
+	ib, _ := json.Marshal(ix)
+	id := push(ocispec.MediaTypeImageIndex, ib)
+	if err := store.Tag(ctx, id, "probe"); err != nil {
+		panic(err)
+	}
+	w := &world{root: root, store: store}
+	if err, hung := w.guarded(func(c context.Context) error { return store.GC(c) }); err != nil || hung {
+		return false
+	}
+	d, err := store.Resolve(ctx, md.Digest.String())
+	return err == nil && d.MediaType == ocispec.MediaTypeImageManifest
+}
+
 // execOnly runs the history on a fresh store and returns the observable string only.
 func execOnly(g *dag.Graph, ops []op) (string, bool) {
 	root, err := os.MkdirTemp("", "c09r-")
@@ -809,6 +858,10 @@ func genCase(r *common.Rand) (*dag.Graph, []op) {
 	o := dag.DefaultOptions()
 	o.Twins = false
 	o.MinNodes, o.MaxNodes = 3, 11
+	if r.Chance(1, 3) {
+		// small scope: few base nodes, referrers on top
+		o.MinNodes, o.MaxNodes = 2, 5
+	}
 	o.MaxBlob = 24
 	if r.Chance(1, 2) {
 		o.Foreign = false
@@ -816,7 +869,12 @@ func genCase(r *common.Rand) (*dag.Graph, []op) {
 	var g *dag.Graph
 	for {
 		g = dag.Random(r, o)
-		okg := true
+		okg := false
+		for _, n := range g.Nodes {
+			if !n.Foreign() {
+				okg = true // something can be pushed
+			}
+		}
 		for _, n := range g.Nodes {
 			// subjects are manifests (OCI referrers); registry.Referrers is undefined otherwise
 			if n.Subject >= 0 && !g.Nodes[n.Subject].IsManifest() {
@@ -985,6 +1043,8 @@ func addReferrers(r *common.Rand, g *dag.Graph, k int) {
 func main() {
 	run = common.Start("C09")
 	run.Rule = "distinct (graph, history) pairs in which a Delete cascaded beyond its target or a GC removed at least one blob"
+	keepLiveDigests = probeKeepLiveDigests()
+	run.Extra["gc_keeps_live_digest_refs"] = keepLiveDigests
 	if run.Replay != "" {
 		for _, c := range common.ReadReplay(run.Replay) {
 			if cs, ok := c["caseseed"]; ok {
